@@ -199,9 +199,9 @@ def miri_exec_engine(prop, tier, seed):
 # Miri threads mode
 
 
-def threads_one(target, wl_seed, nthreads, nops, mode, fams, miri_seeds, rate, grant=False, timeout=1700):
+def threads_one(target, wl_seed, nthreads, nops, mode, fams, miri_seeds, rate, grant=False, timeout=1700, variants="-"):
     flags = f"-Zmiri-many-seeds={miri_seeds[0]}..{miri_seeds[1]} -Zmiri-preemption-rate={rate}"
-    args = ["threads", str(wl_seed), str(nthreads), str(nops), mode, ",".join(fams)] + (["grant"] if grant else [])
+    args = ["threads", str(wl_seed), str(nthreads), str(nops), mode, ",".join(fams), "grant" if grant else "-", variants]
     rc, out, err, wall = run_miri(target, flags, args, timeout)
     hist = re.findall(r"^HISTORY events=(\d+) overlapping_pairs=(\d+) order_digest=([0-9a-f]+) detect_calls=(\d+) cache_misses=(\d+)", out, re.M)
     res = {"target": target, "workload_seed": wl_seed, "threads": nthreads, "ops": nops, "mode": mode, "families": fams, "miri_seeds": list(miri_seeds),
@@ -234,12 +234,18 @@ def miri_threads_engine(prop, tier, seed):
         fams = r.sample(CHEAP, 3)
         if i % 2 == 0 and not any(f.startswith("aes") for f in fams):
             fams[0] = r.choice(["aes128", "aes192", "aes256"])
-        plans.append(dict(wl_seed=seed * 1000 + i, nthreads=r.choice([2, 3, 3, 4]), nops=r.choice([4, 5, 6]),
+        variants = "-"
+        if i % 4 == 1:
+            # the default Kuznyechik build (SSE2 backend, fused tables) costs ~10 s of interpreter start-up:
+            # give it its own workloads, shared-instance mode
+            fams = ["kuznyechik"] + fams[:1]
+            variants = "kuz,kuz_z"
+        plans.append(dict(wl_seed=seed * 1000 + i, nthreads=r.choice([2, 3, 3, 4]), nops=r.choice([3, 4, 5]),
                           mode="firstuse" if i % 2 == 0 else "shared", fams=fams, miri_seeds=(i * per, i * per + per),
-                          rate=r.choice([0.003, 0.01, 0.03, 0.1])))
+                          rate=r.choice([0.003, 0.01, 0.03, 0.1]), variants=variants))
     t0 = time.time()
     with ThreadPoolExecutor(max_workers=max(1, 16 // per)) as ex:
-        results = list(ex.map(lambda p: threads_one("x86_64", p["wl_seed"], p["nthreads"], p["nops"], p["mode"], p["fams"], p["miri_seeds"], p["rate"]), plans))
+        results = list(ex.map(lambda p: threads_one("x86_64", p["wl_seed"], p["nthreads"], p["nops"], p["mode"], p["fams"], p["miri_seeds"], p["rate"], variants=p["variants"]), plans))
     orders = set()
     for x in results:
         orders.update(x["orders"])
